@@ -93,6 +93,19 @@ def run(ctx):
 
     _r2(ctx)
     _r3(ctx, prods)
+    from rules.common import crosscheck_many
+    RS = "ZConfig.loader.Resource"
+    crosscheck_many(ctx, "C19.R2", [
+        (RS + ".__init__", "resource_init", RS, "wraps the given stream"),
+        (RS + ".__enter__", "resource_enter", RS, "with yields the resource"),
+        (RS + ".__exit__", "resource_exit", RS, "with-exit closes"),
+        (RS + ".close", "resource_close", RS,
+         "closes the stream once, clears it"),
+        (RS + ".__getattr__", "resource_getattr", RS,
+         "delegates to the stream"),
+        ("ZConfig.loader.BaseLoader.createResource", "createResource",
+         "ZConfig.loader.BaseLoader", "wraps stream and URL"),
+    ])
     # R4: a failed load leaves no loader state behind -- what a load pushes on
     # the loader it pops in a finally (decision tables with exception paths
     # equal to the reference); the rest of that clause is C13.R1/R6, C12.R4
